@@ -188,7 +188,22 @@ def huge_token(d):
     return "%s%s%d" % (d.choice(["1", "2.5", "4", "7.3", "9.99"]), d.choice("eE"), d.int(6, 12))
 
 
+ARC_NEGATIVE_RADII = False  # set by a check whose reference takes absolute values (SVG 2 grammar: a radius is any number)
+
+
+def _radius_token(d):
+    t = number_token(d, nonneg=True)
+    if ARC_NEGATIVE_RADII and d.chance(1, 5) and not t.startswith(("+", "-")):
+        return "-" + t
+    return t
+
+
 def arg_group(d, up):
+    if up == "A" and ARC_NEGATIVE_RADII and not d.chance(1, 10):
+        return [
+            _radius_token(d), _radius_token(d), number_token(d),
+            d.choice("01"), d.choice("01"), number_token(d), number_token(d),
+        ], (3, 4)
     if up == "A":
         if d.chance(1, 10):
             return [
